@@ -43,6 +43,7 @@ type ctx struct {
 	lite bool
 	// yenK0 enables the check of YenKShortestPaths with k = 0.
 	yenK0 bool
+	gs    *guardState
 }
 
 // nT is the number of target indices: the nodes and one or two absent IDs.
@@ -55,7 +56,7 @@ func (c *ctx) nT() int {
 
 func newCtx(t *vlib.T, r *ref, kind, idKind int) *ctx {
 	ids := idMap(idKind, r.n)
-	c := &ctx{t: t, r: r, sp: r.sp, ids: ids, idx: make(map[int64]int, len(ids)), abs: absentIDs(ids), hmenu: hmenuAll}
+	c := &ctx{t: t, r: r, sp: r.sp, ids: ids, idx: make(map[int64]int, len(ids)), abs: absentIDs(ids), hmenu: hmenuAll, gs: curGuard}
 	for i, id := range ids {
 		c.idx[id] = i
 	}
@@ -90,8 +91,14 @@ func (c *ctx) sink(s int) bool {
 	return true
 }
 
+// count is t.Count behind the watchdog check (see guard.go).
+func (c *ctx) count(name string, n int64) {
+	c.gs.alive()
+	c.t.Count(name, n)
+}
+
 func (c *ctx) failf(routine string, s, t int, f string, a ...any) {
-	c.t.Count("violations:"+routine, 1)
+	c.count("violations:"+routine, 1)
 	c.t.Failf("[%s %s s=%s t=%s] %s", c.label, routine, c.name(s), c.name(t), fmt.Sprintf(f, a...))
 }
 
@@ -100,7 +107,7 @@ func (c *ctx) failf(routine string, s, t int, f string, a ...any) {
 // same case).
 func (c *ctx) classed(class, routine string, s, t int, f string, a ...any) {
 	sub := fmt.Sprintf("%s %s s=%d t=%d", c.label, routine, s, t)
-	c.t.Count("violations:"+class, 1)
+	c.count("violations:"+class, 1)
 	c.t.SubViolation(sub, class, nil, "[%s %s s=%s t=%s] %s", c.label, routine, c.name(s), c.name(t), fmt.Sprintf(f, a...))
 }
 
@@ -241,7 +248,7 @@ func (c *ctx) checkTo(routine string, s, t int, p []graph.Node, w float64, mustB
 		if mustBeSimple {
 			c.failf(routine, s, t, "path %s contains a cycle (zero-weight cycles must be cut)", ids(p))
 		} else {
-			c.t.Count("nonsimple_tree_paths", 1)
+			c.count("nonsimple_tree_paths", 1)
 		}
 		return
 	}
@@ -261,7 +268,7 @@ func (c *ctx) checkUnique(routine string, s, t int, got bool, forward bool) {
 			c.failf(routine, s, t, "unique=false, but there is exactly one shortest path and no zero-weight cycle touches it")
 		}
 	default:
-		c.t.Count("unique_dontcare", 1)
+		c.count("unique_dontcare", 1)
 	}
 }
 
@@ -304,7 +311,7 @@ func (c *ctx) checkAll(routine string, s, t int, paths [][]graph.Node, w float64
 		c.failf(routine, s, t, "%d distinct shortest paths returned, the graph has %d simple shortest paths", len(seen), c.r.nShort[s][t])
 	}
 	if c.r.nShort[s][t] > 1 {
-		c.t.Count("allpaths_sets_with_ties", 1)
+		c.count("allpaths_sets_with_ties", 1)
 	}
 }
 
@@ -331,7 +338,7 @@ func (c *ctx) singleSource(s int) {
 			if msg != msgDijkstraNeg {
 				c.failf("DijkstraFrom", s, s, "u-reachable negative edge: want panic %q, got %q", msgDijkstraNeg, msg)
 			}
-			c.t.Count("documented_panics", 1)
+			c.count("documented_panics", 1)
 		case msg != "":
 			c.failf("DijkstraFrom", s, s, "unexpected panic: %s", msg)
 		default:
@@ -359,7 +366,7 @@ func (c *ctx) singleSource(s int) {
 			continue
 		}
 		if present && s == t && c.sink(s) && !c.trav {
-			c.t.Count("sink_self_queries", 1)
+			c.count("sink_self_queries", 1)
 			if c.lite {
 				// finding 1: reported by every other group; not repeated for
 				// each block of the quick 4-node sweep.
@@ -426,7 +433,7 @@ func (c *ctx) bellmanFord(s int) {
 		case ok:
 			c.checkShortest("BellmanFordFrom", s, sh)
 		default:
-			c.t.Count("negcycle_single_source", 1)
+			c.count("negcycle_single_source", 1)
 			for t := 0; t < n; t++ {
 				var w float64
 				msg := try(func() { _, w = sh.To(c.id(t)) })
@@ -442,7 +449,7 @@ func (c *ctx) bellmanFord(s int) {
 						c.classedOrFail(classBFNeg, "BellmanFordFrom.To", s, t, "a negative cycle lies on the way to the target: weight %v, documented -Inf", w)
 					}
 				} else if w != r.d[s][t] {
-					c.t.Count("bf_negcycle_unaffected_target_differs", 1)
+					c.count("bf_negcycle_unaffected_target_differs", 1)
 				}
 			}
 		}
@@ -483,7 +490,7 @@ func (c *ctx) bellmanFord(s int) {
 						c.classedOrFail(classBFNeg, "BellmanFordAllFrom.AllTo", s, t, "a negative cycle lies on the way to the target: %d paths weight %v, documented nil, -Inf", len(all), wa)
 					}
 				} else if w != r.d[s][t] {
-					c.t.Count("bf_negcycle_unaffected_target_differs", 1)
+					c.count("bf_negcycle_unaffected_target_differs", 1)
 				}
 			}
 		}
@@ -591,9 +598,9 @@ func (c *ctx) astar(s, t int, h path.Heuristic, hv []float64, negEdge bool, rout
 		c.failf(routine+".To", s, t, "unexpected panic: %s", msg)
 		return
 	}
-	c.t.Count("astar_queries", 1)
+	c.count("astar_queries", 1)
 	if !c.consistent(hv, t) {
-		c.t.Count("astar_inconsistent_heuristics", 1)
+		c.count("astar_inconsistent_heuristics", 1)
 		// Admissible but not consistent: the documentation promises the
 		// shortest path for any admissible heuristic, the implementation
 		// needs a consistent one (finding 5 in NOTES.md). The sweeps check
@@ -616,11 +623,36 @@ func (c *ctx) astar(s, t int, h path.Heuristic, hv []float64, negEdge bool, rout
 	c.checkTo(routine, s, t, p, w, false)
 }
 
+// weightsFirst compares every WeightTo of a single-source tree with the
+// reference before any path is reconstructed; it reports whether all agree.
+func (c *ctx) weightsFirst(routine string, s int, weightTo func(int64) float64) bool {
+	ok := true
+	for t := 0; t < c.nT(); t++ {
+		if c.dontCare(s, t) {
+			continue
+		}
+		var wt float64
+		if msg := try(func() { wt = weightTo(c.id(t)) }); msg != "" {
+			c.failf(routine, s, t, "unexpected panic: %s", msg)
+			ok = false
+			continue
+		}
+		if want := c.want(s, t); wt != want {
+			c.failf(routine, s, t, "got %v, true distance %v", wt, want)
+			ok = false
+		}
+	}
+	return ok
+}
+
 // checkShortest checks a Shortest tree rooted at s on a graph without a
 // negative cycle reachable from s.
 func (c *ctx) checkShortest(routine string, s int, sh path.Shortest) {
 	if sh.From() == nil || sh.From().ID() != c.id(s) {
 		c.failf(routine, s, s, "From() does not return the source")
+	}
+	if !c.weightsFirst(routine+".WeightTo", s, sh.WeightTo) {
+		return
 	}
 	for t := 0; t < c.nT(); t++ {
 		if c.dontCare(s, t) {
@@ -642,7 +674,7 @@ func (c *ctx) checkShortest(routine string, s int, sh path.Shortest) {
 			continue
 		}
 		c.checkTo(routine+".To", s, t, p, w, false)
-		c.t.Count("pair_queries", 1)
+		c.count("pair_queries", 1)
 	}
 }
 
@@ -651,6 +683,9 @@ func (c *ctx) checkShortest(routine string, s int, sh path.Shortest) {
 func (c *ctx) checkAlts(routine string, s int, sh path.ShortestAlts) {
 	if sh.From() == nil || sh.From().ID() != c.id(s) {
 		c.failf(routine, s, s, "From() does not return the source")
+	}
+	if !c.weightsFirst(routine+".WeightTo", s, sh.WeightTo) {
+		return
 	}
 	for t := 0; t < c.nT(); t++ {
 		var (
@@ -695,7 +730,7 @@ func (c *ctx) checkAlts(routine string, s int, sh path.ShortestAlts) {
 		if c.present(s) && c.present(t) && c.r.cutRisk(s, t, false) {
 			// The answer depends on the uncontrolled random choice (finding 7):
 			// sampled until decided in the group "zero-cycle-cut".
-			c.t.Count("cut_risk_queries_deferred", 1)
+			c.count("cut_risk_queries_deferred", 1)
 			if w != want {
 				c.failf(routine+".To", s, t, "weight %v, true distance %v", w, want)
 			}
@@ -709,7 +744,7 @@ func (c *ctx) checkAlts(routine string, s int, sh path.ShortestAlts) {
 		if !c.lite {
 			c.checkAll(routine+".AllToFunc", s, t, viaFn, 0, false)
 		}
-		c.t.Count("pair_queries", 1)
+		c.count("pair_queries", 1)
 	}
 }
 
@@ -743,7 +778,7 @@ func (c *ctx) allPairs() {
 			c.failf("FloydWarshall", 0, 0, "ok=%v but a negative cycle exists=%v", ok, r.anyNeg)
 		default:
 			if !ok {
-				c.t.Count("negcycle_all_pairs", 1)
+				c.count("negcycle_all_pairs", 1)
 			}
 			c.checkAllShortest("FloydWarshall", ap, true, !ok)
 		}
@@ -771,6 +806,37 @@ func (c *ctx) allPairs() {
 // documented to remain valid.
 func (c *ctx) checkAllShortest(routine string, ap path.AllShortest, forward, negCycles bool) {
 	r, n := c.r, c.r.n
+	// Weights first: no path is reconstructed from a forest whose distance
+	// matrix is wrong (the reconstruction loops have no guard against an
+	// inconsistent forest and may not terminate).
+	okW := true
+	for s := 0; s < n+1; s++ {
+		for t := 0; t < c.nT(); t++ {
+			if c.dontCare(s, t) {
+				continue
+			}
+			want := c.want(s, t)
+			if negCycles && c.present(s) && c.present(t) && r.aff[s][t] {
+				want = math.Inf(-1)
+			}
+			var wt float64
+			if msg := try(func() { wt = ap.Weight(c.id(s), c.id(t)) }); msg != "" {
+				c.failf(routine+".Weight", s, t, "unexpected panic: %s", msg)
+				okW = false
+				continue
+			}
+			if wt != want {
+				if forward && s == t && c.present(s) && c.sp.has[s][s] && wt == c.sp.w[s][s] {
+					continue // classed below (fw-selfloop-diagonal)
+				}
+				c.failf(routine+".Weight", s, t, "got %v, true distance %v", wt, want)
+				okW = false
+			}
+		}
+	}
+	if !okW {
+		return
+	}
 	for s := 0; s < n+1; s++ {
 		for t := 0; t < c.nT(); t++ {
 			var (
@@ -842,7 +908,7 @@ func (c *ctx) checkAllShortest(routine string, ap path.AllShortest, forward, neg
 				continue
 			}
 			if c.present(s) && c.present(t) && c.r.cutRisk(s, t, forward) {
-				c.t.Count("cut_risk_queries_deferred", 1)
+				c.count("cut_risk_queries_deferred", 1)
 				if w != want {
 					c.failf(routine+".Between", s, t, "weight %v, true distance %v", w, want)
 				}
@@ -856,7 +922,7 @@ func (c *ctx) checkAllShortest(routine string, ap path.AllShortest, forward, neg
 			if !c.lite {
 				c.checkAll(routine+".AllBetweenFunc", s, t, viaFn, 0, false)
 			}
-			c.t.Count("pair_queries", 1)
+			c.count("pair_queries", 1)
 		}
 	}
 }
